@@ -87,6 +87,7 @@ CATALOGUE = [
     # derive, then mutate the derived object in place
     ('or_then_ior', 3), ('sub_then_isub', 3), ('copy_then_top', 2), ('configure_then_rearrange', 3),
     ('configure_then_reset_variables', 3), ('or_then_sort', 2), ('indicate_then_ior', 2),
+    ('parse_then_edit_metadata', 3),
     # lazy decoders
     ('iter_open', 2), ('iter_next', 4),
 ]
@@ -342,6 +343,12 @@ def run_op(w, op, local):
         tt = layout.configure(g, model=model)
         tt.reset_variables(['{prefix}{j}', 'a{i}', '{prefix}{i}'][op['a'] % 3])
         return tt
+    if name == 'parse_then_edit_metadata':
+        # the tree returned by parse is the caller's own: annotating it must not leak anywhere
+        tt = penman.parse(text if op['a'] % 2 else '(z9 / no-comment :ARG0 (y9 / here))')
+        tt.metadata['annotator'] = 'client-%d' % (op['a'] % 7)
+        tt.metadata.pop('id', None)
+        return tt
     if name == 'or_then_sort':
         h = g | w.graphs[y]
         h.triples.sort(key=lambda tr: (str(tr[1]), str(tr[0]), str(tr[2])))
@@ -553,7 +560,8 @@ def _execute(trace, cfg, clients, res):
     if any(o['op'] == 'iter_next' for ops in clients for o in ops) and S.switches:
         res.hit('probe.lazy_iterator_interleaved')
     if any(o['op'] in ('or_then_ior', 'sub_then_isub', 'copy_then_top', 'configure_then_rearrange',
-                       'configure_then_reset_variables', 'or_then_sort', 'indicate_then_ior')
+                       'configure_then_reset_variables', 'or_then_sort', 'indicate_then_ior',
+                       'parse_then_edit_metadata')
            for ops in clients for o in ops):
         res.hit('probe.inplace_on_derived')
     if any(o.get('pickle') for ops in clients for o in ops):
